@@ -18,6 +18,7 @@ package types
 
 import (
 	middleware_pb "com.tuntun.rangers/node/src/middleware/pb"
+	"errors"
 	"fmt"
 	"github.com/gogo/protobuf/proto"
 	"strconv"
@@ -67,6 +68,9 @@ func UnMarshalBlock(bytes []byte) (*Block, error) {
 		return nil, error
 	}
 	block := PbToBlock(b)
+	if block == nil || block.Header == nil {
+		return nil, errors.New("block header is missing or its times cannot be decoded")
+	}
 	return block, nil
 }
 
@@ -78,6 +82,9 @@ func UnMarshalBlockHeader(bytes []byte) (*BlockHeader, error) {
 		return nil, error
 	}
 	header := PbToBlockHeader(b)
+	if header == nil {
+		return nil, errors.New("block header times cannot be decoded")
+	}
 	return header, nil
 }
 
